@@ -79,6 +79,7 @@ func OpenGoGitRepo(path, namespace string, clockLoaders []ClockLoader) (*GoGitRe
 		keyring:      k,
 		localStorage: billyLocalStorage{Filesystem: osfs.New(filepath.Join(path, namespace))},
 	}
+	verifRepoHook(repo)
 
 	loaderToRun := make([]ClockLoader, 0, len(clockLoaders))
 	for _, loader := range clockLoaders {
